@@ -124,3 +124,39 @@ def run(F, rep, ctx):
                "ok" if "Int" in accepted and "BigInt" in accepted else "violated", "accepted: %s" % [kname(k) for k in accepted], sf.span, fn=sf.path,
                key="C03.predicate-table|%s|non-vacuous" % iid)
     rep.floor("C03.predicate-table cells decided", n, 30)
+
+
+def run_conditions(F, rep):
+    """Conditions of `if` / `while` / `assert`: a type accepted by TypeLayout::is_boolean is one the three handlers accept in every run-time
+    representation (they destructure Primitive::Bool and fail on anything else)."""
+    from props import C12
+    T = tables.Tables(F)
+    sf = F.fn("compiler::ast::r#type::TypeLayout::is_boolean")
+    if sf is None:
+        raise AnchorMissing("TypeLayout::is_boolean")
+    accepted = []
+    n = 0
+    for k in universe():
+        v = static_pred(T, sf, k)
+        if v is None:
+            rep.ob("C03.predicate-table", "condition: is_boolean(%s)" % kname(k), "undecided", "not a constant boolean", sf.span, fn=sf.path)
+            continue
+        n += 1
+        if v:
+            accepted.append(k)
+    for k in accepted:
+        for hname, what in (("if_stmt", "if"), ("while_loop", "while"), ("assert", "assert")):
+            h = C12.handler(F, hname)
+            bad = []
+            for r in reps(k):
+                res, ex = C12.run_handler(F, T, h, T.prim_value(r, "cond"), arg0="1")
+                # a kind-determined failure (every path fails, or a failure that does not depend on the payload) is a type error at run time
+                kinds = {kk for kk, i in res if not (kk == "Err" and i.get("data_dep"))}
+                if ex or not res or "Ok" not in {kk for kk, _ in res} or any(kk in ("Err", "Panic") and not i.get("data_dep") for kk, i in res):
+                    bad.append(kname(r))
+            rep.ob("C03.predicate-table", "condition: `%s` is accepted as a %s condition => the %s handler accepts every run-time representation" % (kname(k), what, hname),
+                   "violated" if bad else "ok", "rejected at run time: %s" % bad if bad else "", sf.span, fn=sf.path,
+                   key="C03.predicate-table|condition-%s|%s" % (what, kname(k)))
+    rep.ob("C03.predicate-table", "condition: is_boolean accepts bool (table is not vacuous)", "ok" if "Bool" in accepted else "violated",
+           "accepted: %s" % [kname(k) for k in accepted], sf.span, fn=sf.path, key="C03.predicate-table|condition|non-vacuous")
+    rep.floor("C03.predicate-table condition cells decided", n, 30)
